@@ -4,6 +4,7 @@
 #include "interp_util.hpp"
 
 #include <memory>
+#include <mutex>
 
 namespace eng {
 using namespace ipr;
@@ -1214,7 +1215,11 @@ const char* World::intern_name(const std::string& s)
 
 const char* World::intern_static(const std::string& s)
 {
+   // the one piece of mutable state the harness shares between worlds: guarded, so that worlds on different threads (C20)
+   // never race on it
+   static std::mutex guard;
    static std::set<std::string> store;
+   std::lock_guard<std::mutex> lock(guard);
    return store.insert(s).first->c_str();
 }
 
